@@ -406,7 +406,11 @@ pub fn translate_const_asserts(im: &syn::ItemImpl) -> R<Vec<ItemOut>> {
       syn::ImplItem::Const(c) => {
         let mac = match &c.expr {
           syn::Expr::Macro(m) if m.mac.path.is_ident("assert") => &m.mac,
-          _ => return Err(format!("const {} is not an assert!", c.ident)),
+          _ => {
+            out.push(ItemOut { name: c.ident.to_string(), kind: "const".into(), line_start: c.span().start().line, line_end: c.span().end().line,
+              cfg: vec![], status: "failed: not an assert!".into(), code: String::new(), callees: vec![] });
+            continue;
+          }
         };
         let parser = syn::punctuated::Punctuated::<syn::Expr, syn::Token![,]>::parse_terminated;
         let args = syn::parse::Parser::parse2(parser, mac.tokens.clone()).map_err(|e| e.to_string())?;
@@ -415,10 +419,15 @@ pub fn translate_const_asserts(im: &syn::ItemImpl) -> R<Vec<ItemOut>> {
           ms: &MS, sigs: &sigs, generics: generics.clone(), vars: vec![], ret: Ty::Unit, fresh: 0,
           callees: vec![], self_ty: None,
         };
-        let t = cx.expr(cond, Some(&Ty::Bool))?;
-        if t.ty != Ty::Bool {
-          return Err(format!("const {}: condition is not bool", c.ident));
-        }
+        let t = match cx.expr(cond, Some(&Ty::Bool)) {
+          Ok(t) if t.ty == Ty::Bool => t,
+          other => {
+            let why = match other { Err(e) => e, Ok(_) => "condition is not bool".to_string() };
+            out.push(ItemOut { name: c.ident.to_string(), kind: "const".into(), line_start: c.span().start().line, line_end: c.span().end().line,
+              cfg: vec![], status: format!("failed: {}", why), code: String::new(), callees: vec![] });
+            continue;
+          }
+        };
         let binders: Vec<String> = generics.iter().map(|g| format!("({} : ty)", g.name)).collect();
         let code = format!("Definition {} {} : outcome bool :=\n  {}.", c.ident, binders.join(" "), t.lifted());
         out.push(ItemOut {
@@ -485,7 +494,7 @@ pub fn translate_trait_methods(ms: &ModuleSpec, file: &syn::File, sigs: &HashMap
     let cfg = crate::attr_cfgs_pub(&m.attrs);
     match r {
       Ok((code, callees)) => out.push(ItemOut { name, kind: "fn".into(), line_start: ls, line_end: le, cfg, status: "translated".into(), code, callees }),
-      Err(e) => return Err(format!("trait {} method {} (line {}): {}", trait_name, name, ls, e)),
+      Err(e) => out.push(ItemOut { name, kind: "fn".into(), line_start: ls, line_end: le, cfg, status: format!("failed: {}", e), code: String::new(), callees: vec![] }),
     }
   }
   if out.is_empty() { return Err(format!("trait {} has no default methods", trait_name)); }
@@ -527,14 +536,20 @@ pub fn translate_alloc_impls(ms: &ModuleSpec, file: &syn::File,
       match r {
         Ok((code, callees)) => out.push(ItemOut { name: coq_name, kind: "fn".into(), line_start: ls, line_end: le, cfg: vec![],
           status: "translated".into(), code, callees }),
-        Err(e) => return Err(format!("impl {} method {} (line {}): {}", tr, coq_name, ls, e)),
+        Err(e) => out.push(ItemOut { name: coq_name, kind: "fn".into(), line_start: ls, line_end: le, cfg: vec![],
+          status: format!("failed: {}", e), code: String::new(), callees: vec![] }),
       }
     }
   }
-  out.append(&mut translate_trait_methods(ms, file, sigs, "TransparentWrapperAlloc")?);
+  match translate_trait_methods(ms, file, sigs, "TransparentWrapperAlloc") {
+    Ok(mut v) => out.append(&mut v),
+    Err(e) => out.push(ItemOut { name: "TransparentWrapperAlloc".into(), kind: "trait".into(), line_start: 0, line_end: 0, cfg: vec![],
+      status: format!("failed: {}", e), code: String::new(), callees: vec![] }),
+  }
   for need in ["box_bytes_of_sized", "box_bytes_of_slice", "try_from_box_bytes_sized", "try_from_box_bytes_slice", "box_bytes_drop"] {
     if !seen.iter().any(|s| s == need) {
-      return Err(format!("expected impl method {} not found in src/allocation.rs", need));
+      out.push(ItemOut { name: need.to_string(), kind: "fn".into(), line_start: 0, line_end: 0, cfg: vec![],
+        status: "failed: expected impl method not found in src/allocation.rs".into(), code: String::new(), callees: vec![] });
     }
   }
   Ok(out)
